@@ -282,8 +282,11 @@ static inline int iso_char_at(long long k, unsigned flags, long long width, int 
  * The output callback handed to the real code: counts, and remembers the g_k-th character.  No buffer,
  * so widths and precisions are unbounded; g_k is arbitrary, so a statement about the recorded character
  * is a statement about every character of the output. */
-long long g_count; /* characters emitted so far */
-long long g_k;     /* ghost index (set by the harness before the call) */
+#ifndef ISO_COUNT_T
+#define ISO_COUNT_T long long
+#endif
+ISO_COUNT_T g_count; /* characters emitted so far */
+ISO_COUNT_T g_k;     /* ghost index (set by the harness before the call) */
 int g_got;         /* the character emitted at position g_k */
 static void iso_recorder(void *d, int c)
 {
